@@ -239,6 +239,8 @@ class BioConsert(RankAggAlgorithm, PairwiseBasedAlgorithm):
     def __init__(self, starting_algorithms=None):
         is_valid = True
         if isinstance(starting_algorithms, Iterable):
+            # the starting algorithms are browsed several times: a one-shot iterable must be stored as a list
+            starting_algorithms = list(starting_algorithms)
             for obj in starting_algorithms:
                 if not isinstance(obj, RankAggAlgorithm):
                     is_valid = False
